@@ -316,10 +316,20 @@ def contains(it, container, x):
 
 
 def str_concat(it, a, b):
+    """a + b on strings, in the same canonical form as str_format (pieces flattened, constants merged)."""
     c = it.c
     r = c.fresh_ref('strcat', 'str', distinct=False)
-    ra, rb = c.to_ref(a), c.to_ref(b)
-    c.assume(sval(r.e) == str_cat(sval(ra), sval(rb)))
+    c.assume(r.e != NONE)
+
+    def pieces(x):
+        if isinstance(x, str):
+            return [('c', x)]
+        if isinstance(x, SRef) and ('parts', x.e.sexpr()) in c.pyghost:
+            return list(c.pyghost[('parts', x.e.sexpr())])
+        return [('v', sval(c.to_ref(x)))]
+    parts = _merge_parts(pieces(a) + pieces(b))
+    c.assume(sval(r.e) == text_of_parts(c, parts))
+    c.pyghost[('parts', r.e.sexpr())] = parts
     return r
 
 
@@ -328,33 +338,115 @@ _fmt_funcs = {}
 
 
 def str_format(it, fmt, args):
-    """The text is not interpreted: an uninterpreted constructor keyed by the literal format string."""
+    """<literal>.format(args): the text is the concatenation of the literal's pieces and the arguments' texts, kept
+    in a canonical form (adjacent constant pieces merged, concatenation right-nested), so that two ways of writing
+    the same text ("POST_FIFO:{}".format(n) and "{}:{}".format("POST_FIFO", n)) denote the same value.  Format
+    specifications ({:>5} ...) make the piece an opaque function of the argument."""
     c = it.c
-    it.w.dropped.add('text produced by str.format (uninterpreted constructor keyed by the literal)')
+    it.w.dropped.add('characters of formatted text (texts are compared as canonical concatenations of pieces)')
     if not isinstance(fmt, str):
         raise Unsupported('format on a non-literal')
-    key = (fmt, len(args))
-    f = _fmt_funcs.get(key)
-    if f is None:
-        f = z3.Function('fmt_%d' % len(_fmt_funcs), *([StrV] * len(args) + [StrV]))
-        _fmt_funcs[key] = f
-    vals = []
-    for a in args:
-        if isinstance(a, (SInt, int)) and not isinstance(a, bool):
-            vals.append(sval(box(c.to_int(a))))
-        else:
-            vals.append(sval(c.to_ref(a)))
+    import string
+    parts = []
+    k = 0
+    if fmt.startswith('<') and fmt.endswith('>') and '{' not in fmt:
+        parts = [('o', fmt, [_arg_term(it, a) for a in args])]        # an opaque builtin text (strftime ...)
+    else:
+        for lit, field, spec, conv in string.Formatter().parse(fmt):
+            if lit:
+                parts.append(('c', lit))
+            if field is None:
+                continue
+            if field == '':
+                idx = k
+                k += 1
+            elif field.isdigit():
+                idx = int(field)
+            else:
+                raise Unsupported('format field {%s}' % field)
+            if idx >= len(args):
+                raise Raised('IndexError')
+            a = args[idx]
+            if spec or conv:
+                parts.append(('o', 'spec:%s!%s' % (spec, conv), [_arg_term(it, a)]))
+            elif isinstance(a, str):
+                parts.append(('c', a))
+            elif isinstance(a, bool):
+                parts.append(('c', str(a)))
+            elif isinstance(a, int):
+                parts.append(('c', str(a)))
+            elif isinstance(a, SRef) and ('parts', a.e.sexpr()) in c.pyghost:
+                parts.extend(c.pyghost[('parts', a.e.sexpr())])
+            else:
+                parts.append(('v', _arg_term(it, a)))
     r = c.fresh_ref('fmt', 'str', distinct=False)
     c.assume(r.e != NONE)
-    if vals:
-        c.assume(sval(r.e) == f(*vals))
-    else:
-        c.assume(sval(r.e) == c.strconst(fmt))
+    parts = _merge_parts(parts)
+    c.assume(sval(r.e) == text_of_parts(c, parts))
+    c.pyghost[('parts', r.e.sexpr())] = parts
     return r
 
 
-def fmt_func(fmt, n):
-    return _fmt_funcs.get((fmt, n))
+def _arg_term(it, a):
+    c = it.c
+    if isinstance(a, (SInt, int)) and not isinstance(a, bool):
+        return sval(box(c.to_int(a)))
+    if a is None:
+        return c.strconst('None')
+    return sval(c.to_ref(a))
+
+
+def _merge_parts(parts):
+    out = []
+    for p in parts:
+        if p[0] == 'c' and out and out[-1][0] == 'c':
+            out[-1] = ('c', out[-1][1] + p[1])
+        elif p[0] == 'c' and p[1] == '':
+            continue
+        else:
+            out.append(p)
+    return out
+
+
+_opaque_funcs = {}
+
+
+def text_of_parts(c, parts):
+    """The StrV term of a canonical list of pieces: ('c', text) | ('v', StrV term) | ('o', key, [StrV terms])."""
+    parts = _merge_parts(list(parts))
+
+    def term(p):
+        if p[0] == 'c':
+            return c.strconst(p[1])
+        if p[0] == 'v':
+            return p[1]
+        f = _opaque_funcs.get((p[1], len(p[2])))
+        if f is None:
+            f = z3.Function('text_%d' % len(_opaque_funcs), *([StrV] * len(p[2]) + [StrV]))
+            _opaque_funcs[(p[1], len(p[2]))] = f
+        return f(*p[2]) if p[2] else c.strconst(p[1])
+    if not parts:
+        return c.strconst('')
+    t = term(parts[-1])
+    for p in reversed(parts[:-1]):
+        t = str_cat(term(p), t)
+    return t
+
+
+def fmt_text(c, fmt, *vals):
+    """Spec-side helper: the text of fmt.format(*vals) where each val is a python str (constant) or a StrV term."""
+    import string
+    parts = []
+    k = 0
+    for lit, field, spec, conv in string.Formatter().parse(fmt):
+        if lit:
+            parts.append(('c', lit))
+        if field is None:
+            continue
+        v = vals[k]
+        k += 1
+        parts.append(('c', v) if isinstance(v, str) else ('v', v))
+    return text_of_parts(c, parts)
 
 
 # ------------------------------------------------------------------ for loops
@@ -722,7 +814,28 @@ def call_builtin(it, b, args, kwargs, node):
     if n == 'range':
         if len(args) == 1:
             return ('range', c.to_int(args[0]))
+        if len(args) == 3 and args[2] == -1 and args[1] == -1:
+            # range(a, -1, -1): a, a-1, ..., 0  ==  reversed(range(a + 1))
+            return ('range_rev', c.to_int(args[0]) + 1)
         raise Unsupported('range with several arguments')
+    if n == 'bool':
+        return SBool(c.to_bool(args[0])) if args else False
+    if n == 'any' and node is not None and len(node.args) == 1 and isinstance(node.args[0], ast.GeneratorExp):
+        # any(<x is y> for x in seq): identity membership
+        g = node.args[0]
+        if len(g.generators) == 1 and not g.generators[0].ifs and isinstance(g.generators[0].target, ast.Name) \
+                and isinstance(g.elt, ast.Compare) and len(g.elt.ops) == 1 and isinstance(g.elt.ops[0], ast.Is):
+            var = g.generators[0].target.id
+            l, r = g.elt.left, g.elt.comparators[0]
+            other = r if isinstance(l, ast.Name) and l.id == var else (l if isinstance(r, ast.Name) and r.id == var else None)
+            if other is not None:
+                seq = it.eval(g.generators[0].iter)
+                x = c.to_ref(it.eval(other))
+                if isinstance(seq, SRef) and base_type(seq.pytype) in ('list', 'deque'):
+                    n_, items = seq_len(it, seq), seq_items(it, seq)
+                    j = z3.Int('j!any')
+                    return SBool(z3.Exists([j], z3.And(0 <= j, j < n_, z3.Select(items, j) == x)))
+        raise Unsupported('any(...) of this shape')
     if n == 'copy':
         return args[0]          # copy.copy of a function object: the same behaviour (identity matters nowhere here)
     if n == 'setattr':
